@@ -3,7 +3,8 @@
    for every character table, option record, oracle tables (group splits, matches, sample selections)
    and input list.  "Matched" is what the match oracle (CPython re.match, recorded per run) says. *)
 From Coq Require Import ZArith List Bool.
-From Tdda Require Import Base.Sexp Base.Str Rexpy.Chars Rexpy.Pipeline Rexpy.PipelineProofs.
+From Tdda Require Import Base.Sexp Base.Str Rexpy.Chars Rexpy.Pipeline Rexpy.PipelineProofs Rexpy.Sem
+     Rexpy.OracleCheck Rexpy.RefineProofs Rexpy.BatchProofs.
 Import ListNotations.
 Open Scope Z_scope.
 
@@ -39,6 +40,37 @@ Theorem C03_check_complete : forall mt rexes all re_freqs,
   forall s, In s (ex_strings all) -> exists r, In r rexes /\ lookup_match mt r s = Some true.
 Proof. exact find_non_matches_complete. Qed.
 Print Assumptions C03_check_complete.
+
+(* One batch extraction covers its own working examples, whatever they are: every working example is matched -
+   at the level of what each fragment denotes (a literal string, a raw character, the character set of a category,
+   a bracket set; min/max read as the rendered quantifier) - by one of the refined patterns returned.
+   Hypotheses: ASCII digits are decimal digits in the character table (true of the interpreter's: py_table_ok);
+   max_strings_in_group >= 1; and the group-split oracle is sane on this run (checked executably for every real
+   run by batch_oracle_okb: the groups re.match delivers concatenate to the example and each group consists of
+   characters of its coarse category, within the coarse fragment's count bounds). *)
+Theorem C03_batch_covers : forall ct o e stripped gt ex merged rex,
+  batch_extract ct o e stripped gt ex = Ok (merged, rex) ->
+  table_ok ct -> 1 <= z_max_strings_in_group o ->
+  batch_oracle_okb ct o e stripped gt ex = true ->
+  forall s, In s (ex_strings ex) -> exists fs, In fs merged /\ matches_frags ct false e fs s.
+Proof. exact batch_covers_checked. Qed.
+Print Assumptions C03_batch_covers.
+
+(* the heart of it: the fragments refined for a VRLE match every example they were refined from, for ANY split
+   into groups that respects the coarse fragments (so the argument does not depend on how the regular-expression
+   engine resolves ambiguous splits) *)
+Theorem C03_refine_covers : forall ct mp e vl cap vrle (groups : list (list str)),
+  table_ok ct -> 1 <= cap ->
+  (forall gs, In gs groups -> Forall2 (pos_ok ct e) vrle gs) ->
+  let accs := fold_left (fold_step ct e vl cap vrle) groups (map (fun _ => acc0) vrle) in
+  forall gs, In gs groups ->
+    matches_frags ct false e (refine_all ct mp e (Z.of_nat (length vrle)) vrle accs) (List.concat gs).
+Proof. exact refine_covers. Qed.
+Print Assumptions C03_refine_covers.
+
+Theorem C03_interpreter_tables_ok : table_ok py_chartab.
+Proof. exact py_table_ok. Qed.
+Print Assumptions C03_interpreter_tables_ok.
 
 (* the bracket for the punctuation set {^, -} no longer starts with a bare caret (the [^-] defect) *)
 Example C03_escaped_bracket_caret : escaped_bracket false [94; 45] = [91; 92; 94; 45; 93].
